@@ -291,6 +291,26 @@ def signature_rules(ctx, facts):
         il = [f for f in inner if t.contains(f["body"], rd)]
         ok_dom = hir_dominates(t, srt, rd)
         idx = nf.nf(rd["idx"], True, res=R)
+        # form 2: the sorted range itself is iterated in order: `for [(j,)] x in self.indices[lo..hi].iter()[.enumerate()]`
+        src_of = [f for f in inner if t.contains(f["iter"], rd)]
+        if src_of and ok_dom:
+            f_ = src_of[0]
+            it = nf.strip(f_["iter"])
+            enum = False
+            while it["k"] == "MethodCall" and it["name"] in ("iter", "into_iter", "enumerate") and not it["args"]:
+                enum = enum or it["name"] == "enumerate"
+                it = nf.strip(it["recv"])
+            mm = re.match(r"^std::ops::Range\{start:(.*), end:(.*)\}$", idx)
+            pat = f_["pat"]
+            elem = None
+            if enum and pat["k"] == "Tuple" and len(pat["subs"]) == 2 and pat["subs"][1]["k"] == "Bind":
+                elem = pat["subs"][1]["name"]
+            elif not enum and pat["k"] == "Bind":
+                elem = pat["name"]
+            if it is rd and mm and mm.group(1) == s_lo and mm.group(2) == s_hi and s_lo in LO and s_hi in HI and elem:
+                read_nf = elem
+                ctx.ok("MUSTPASS", fid, "the sorted range self.indices[%s] is iterated in order (element `%s`), after the sort" % (idx, elem), hirq.loc(rd))
+                continue
         jv = hirq.show_pat(il[0]["pat"]) if il else "?"
         ok_idx = bool(il) and nf.nf(il[0]["iter"], True, res=R) == "std::ops::Range{start:0, end:self.l}" and idx in {"(%s + %s)" % (jv, lo) for lo in LO} | {"(%s + %s)" % (lo, jv) for lo in LO}
         if ok_dom and ok_idx:
